@@ -56,6 +56,54 @@ func main() {
 			os.RemoveAll(workDir)
 		}
 		os.Exit(rc)
+	case "funcs":
+		// every unit of the repository (function, method, closure) and whether it is under contract
+		prog, err := LoadProgram(*repo)
+		if err != nil {
+			fmt.Fprintln(os.Stderr, err)
+			os.Exit(2)
+		}
+		var ks []string
+		for k := range prog.Funcs {
+			ks = append(ks, k)
+		}
+		sort.Strings(ks)
+		for _, k := range ks {
+			mark := "-"
+			if ct := prog.Contracts.ByKey[k]; ct != nil {
+				mark = strings.Join(ct.Props, ",")
+				if ct.Trusted {
+					mark += " (trusted)"
+				}
+			}
+			fmt.Printf("%-70s %s\n", shortName(k), mark)
+		}
+		os.Exit(0)
+	case "harness":
+		// runs the replay harnesses of a property against the working tree (diagnostic; `check` runs them itself on a
+		// failed obligation and in the thorough tier)
+		if len(rest) != 1 || len(replays[rest[0]]) == 0 {
+			fmt.Fprintln(os.Stderr, "harness needs a property id that has a replay harness")
+			os.Exit(2)
+		}
+		workDir = filepath.Join(verifDir, "work", fmt.Sprintf("harness-%s-%d", rest[0], os.Getpid()))
+		rc := 0
+		for _, rs := range replays[rest[0]] {
+			failing, out, ran := runReplaySpec(*repo, rest[0], rs, &Obligation{Name: "harness-sweep"})
+			if *verbose || !ran {
+				fmt.Println(out)
+			}
+			if failing != "" {
+				fmt.Printf("%s: REPLAY-FAIL %s\n", rs.Test, failing)
+				rc = 1
+			} else if ran {
+				fmt.Printf("%s: no failure\n", rs.Test)
+			} else {
+				rc = 2
+			}
+		}
+		os.RemoveAll(workDir)
+		os.Exit(rc)
 	case "lemmas":
 		workDir = filepath.Join(verifDir, "work", fmt.Sprintf("lemmas-%d", os.Getpid()))
 		rc := runLemmas(*verbose, *only, *timeout)
@@ -672,6 +720,7 @@ func runCheck(prop, tier, repo string, verbose bool, only string, timeout int) i
 	// harness's sweep of inputs) is run even when every obligation was discharged
 	harness := ""
 	if tier == "thorough" && viol == 0 && len(replays[prop]) > 0 && os.Getenv("VERIF_NO_REPLAY") == "" {
+		replayRace = true
 		dummy := &Obligation{Name: "harness-sweep", Func: ""}
 		failing, out, ran := runReplay(repo, prop, dummy)
 		if ran && failing != "" {
@@ -682,7 +731,7 @@ func runCheck(prop, tier, repo string, verbose bool, only string, timeout int) i
 			os.WriteFile(rp, b, 0o644)
 			fmt.Printf("VIOLATION property=%s replay=%s obligation=harness-sweep\n", prop, rp)
 		} else if ran {
-			harness = "replay harness sweep on the unchanged code: no failure (" + replays[prop][0].Test + ")"
+			harness = "bounded replay harness sweep on the unchanged code (DESIGN 13.11; never counted as proof): no failure (" + replays[prop][0].Test + ")"
 		} else {
 			harness = "replay harness could not be run: " + trunc(out, 200)
 		}
